@@ -49,6 +49,52 @@ def cache_jobs(bits, tmo, skip=()):
     return js
 
 
+A_RANGE = ("glyph drawing: every coordinate of the request (src/mask/dest x,y, glyph positions, glyph origins) lies in [-2^29, 2^29], "
+           "destination sizes in [0, 2^29] (the property's 'within int32 arithmetic range', same as C03); glyph images are at most 2^15 x 2^15")
+A_GLYPH_IMG = ("glyph drawing: glyph images are validated BITS images as pixman_glyph_cache_insert creates them (no repeat): "
+               "extended_format_code == bits.format, never PIXMAN_null; their size, format and flags are symbolic")
+A_STUBS = ("glyph drawing: _pixman_implementation_lookup_composite is a recording stub returning a different recording routine for every "
+           "lookup (which routine is right for (op, formats, flags) is C02; what it draws is C01); _pixman_image_validate is a no-op "
+           "(flags / format codes are inputs = the state after validation, C14); global_implementation is a dummy object; "
+           "pixman_image_create_solid_fill / pixman_image_unref / pixman_image_create_bits / pixman_image_set_component_alpha / "
+           "pixman_image_composite32 are recording stubs")
+A_REGION_CONTRACT = ("glyph drawing: _pixman_compute_composite_region32 replaced by its contract (FALSE, or TRUE with 1..2 arbitrary non-empty boxes "
+                     "inside the destination bounds; what the region is, is C03 region.*)")
+A_REGION_REAL = ("glyph drawing (end to end job): destination without clip or with one clip rectangle, no alpha maps, source without clip region "
+                 "(the real _pixman_compute_composite_region32 and pixman-region32.c stay on their loop-free paths)")
+A_MASK_IMG = ("add_glyphs: the mask image it accumulates into is the validated BITS image pixman_composite_glyphs has just created "
+              "(extended_format_code == bits.format); its size, format and flags are symbolic")
+DRAW_FLAGS = CHK + ["--signed-overflow-check", "--memory-leak-check"]
+
+
+def drawing_jobs(tier):
+    """the drawing half: per-glyph geometry of pixman_composite_glyphs_no_mask / add_glyphs / pixman_composite_glyphs against
+    'what pixman_image_composite32 of that glyph would hand to the routine'; BOUNDED in the number of glyph entries."""
+    js = []
+
+    def J(name, harness, ng, functions, domain, defines=None, assumptions=None, **kw):
+        d = {"VD_NG": ng, "PIXMAN_VERIF_GLYPH_HASH_BITS": 2}
+        d.update(defines or {})
+        kw.setdefault("timeout", 600)
+        kw.setdefault("unwind", 4)
+        js.append(Job(name, "C17/" + harness, defines=d, kind="bounded",
+                      bound="%d glyph entr%s in the request" % (ng, "y" if ng == 1 else "ies (the two may be the same glyph)"), functions=functions, domain=domain,
+                      cbmc_flags=DRAW_FLAGS, assumptions=[A_RANGE, A_GLYPH_IMG, A_STUBS] + (assumptions or []), **kw))
+
+    F_NM = ["pixman_composite_glyphs_no_mask", "box32_intersect"]
+    RS = ["repo:pixman/pixman-region32.c"]
+    J("no_mask.g1.box2", "no_mask.c", 1, F_NM, defines={"VD_NBOX": 2}, extra_sources=RS, assumptions=[A_REGION_CONTRACT], min_props=12,
+      domain="0..1 glyph entry, every operator code, source/destination format codes and flags, glyph size <= 2^15, origin, position, "
+             "composite region FALSE or 1..2 symbolic boxes")
+    J("no_mask.g2.box1", "no_mask.c", 2, F_NM, defines={"VD_NBOX": 1}, extra_sources=RS, assumptions=[A_REGION_CONTRACT], min_props=12,
+      domain="0..2 glyph entries (two glyph objects of different size/format/flags or the same object twice), one symbolic region box: "
+             "order of the calls, lookup redone when format or flags change")
+    J("no_mask.g1.real_region", "no_mask.c", 1, F_NM + ["_pixman_compute_composite_region32", "clip_general_image", "pixman_region32_rectangles"],
+      defines={"VD_REAL_REGION": 1}, extra_sources=["repo:pixman/pixman.c"] + RS, assumptions=[A_REGION_REAL], min_props=12,
+      domain="end to end with the real composite-region code: 0..1 glyph entry, destination of symbolic size with no clip or one symbolic clip rectangle")
+    return js
+
+
 def jobs(tier):
     js = [Job("composite_glyphs.frame", "C17/composite_glyphs.c", kind="proof", unwind=2, functions=["pixman_composite_glyphs"],
               domain="every operator, every mask format of pixman.h, every offset and size, mask allocation failing or not, zero glyphs",
@@ -60,6 +106,7 @@ def jobs(tier):
     # measured (loaded 16-core box, 3-6 jobs in parallel): 4 slots 6-41 s per job; 8 slots: keeps_null_slot 110 s,
     # history 146 s, clear_table 316 s, lifecycle 374 s, insert_glyph 406 s, lookup 550 s, api.insert 762 s;
     # api.remove / api.thaw at 8 slots did not finish in 1440 s -> they stay at 4 slots (HIGH 2, LOW 1).
+    js += drawing_jobs(tier)
     js += cache_jobs(2, 900)
     if tier != "quick":
         js += cache_jobs(3, 3600, skip=("api.remove", "api.thaw"))
